@@ -220,22 +220,29 @@ def components (bp : Blueprint) : Array Nat :=
   let par := bp.circuitEdges.foldl (fun p (a, b) => ufUnion p a b) par0
   (Array.range (4 * bp.ents.size)).map (ufFind par)
 
+/-- component id of a connector slot (the slot itself outside the table) -/
+def compOf (bp : Blueprint) (x : Nat) : Nat := bp.components.getD x x
+
+/-- run-time certificate for the union–find result: both ends of every circuit wire carry the same id.
+With `components_sound` (Proofs/NetSound.lean) this makes the ids *exactly* the connected components. -/
+def componentsClosed (bp : Blueprint) : Bool :=
+  bp.circuitEdges.all (fun ab => bp.compOf ab.1 == bp.compOf ab.2)
+
 /-- output connector of an entity for a colour (1 = red, 2 = green) -/
 def outConn (e : BpEntity) (colour : Nat) : Nat := if isCombinator e.name then colour + 2 else colour
 
+/-- the producers on entity `i`'s input network of colour `c` (1 red, 2 green): non-pole entities whose
+colour-`c` output connector carries the same component id -/
+def prodOf (bp : Blueprint) (c i : Nat) : List Nat :=
+  (List.range bp.ents.size).filter (fun j =>
+    match bp.ents[j]? with
+    | some e => (match e.kind with | .pole => false | _ => true) &&
+        bp.components.getD (slot j (outConn e c)) (4 * bp.ents.size) == bp.components.getD (slot i c) 0
+    | none => false)
+
 def toCircuit (bp : Blueprint) : Circuit :=
-  let comp := bp.components
   let n := bp.ents.size
-  let prod (colour : Nat) : Array (List Nat) :=
-    (Array.range n).map (fun i =>
-      let net := comp.getD (slot i colour) 0
-      (List.range n).filter (fun j =>
-        match bp.ents[j]? with
-        | some e =>
-          (match e.kind with | .pole => false | _ => true) &&
-            comp.getD (slot j (outConn e colour)) (4 * n) == net
-        | none => false))
-  { kinds := bp.ents.map (·.kind), prodR := prod 1, prodG := prod 2 }
+  { kinds := bp.ents.map (·.kind), prodR := (Array.range n).map (prodOf bp 1), prodG := (Array.range n).map (prodOf bp 2) }
 
 end Blueprint
 end Facto
